@@ -77,9 +77,9 @@ PROPERTIES = {
     },
     "C15": {
         "units": ["U-symbols"],
-        "claim": "Symbol lookup, for every declaration table, context and path: try_get_by_name(ctx, k, path) is None when k exceeds the depth of the context, and otherwise descends from the declaration reached by the first k components of the context (the enclosing label k-1 levels deep; the global scope for k = 0) along the dotted path; traverse/get_parent implement that descent component by component. The result depends only on the table, not on declaration order.",
-        "not_reached": "SymbolManager::declare (duplicate / skipped-level errors, HashMap insertion, context construction: iterator chains and String building), the AST walk that carries symbol_ctx, constants' values, 'moving a constant changes nothing'",
-        "trusted_base": ["ASSUMED contract of the R8 wrapper verif_lookup: HashMap<String, ItemRef>::get with a borrowed key is an (uninterpreted) function of the map and the key text"],
+        "claim": "Symbol lookup, for every declaration table, context and path: try_get_by_name(ctx, k, path) is None when k exceeds the depth of the context, and otherwise descends from the declaration reached by the first k components of the context (the enclosing label k-1 levels deep; the global scope for k = 0) along the dotted path; traverse/get_parent implement that descent component by component. The result depends only on the table, not on declaration order. Declarations: SymbolManager::declare fails loudly (and changes nothing) when the level skips a nesting level or the name already exists under that parent; otherwise it returns the next index, binds the name under exactly that parent, leaves every other scope's bindings untouched, keeps the table well formed and records depth and scope path of the new declaration.",
+        "not_reached": "the AST walk that carries symbol_ctx, constants' values, 'moving a constant changes nothing'",
+        "trusted_base": ["ASSUMED contracts of the R8/R16 wrappers: HashMap<String, ItemRef>::get/insert/new as an uninterpreted lookup model (spec_lookup) over key texts; cloning a slice of Strings; SymbolManager::get_children_mut (frame through the returned &mut); the `span_refs` side table is dropped from the stand-in"],
     },
     "C09": {
         "units": ["U-iterate", "U-resolver"],
